@@ -30,6 +30,8 @@ fn main() {
                 "decblk" => e3::decblk(&mut rec, &mut rng, thorough),
                 "decobj" => e3::decobj(&mut rec, &mut rng, thorough),
                 "inter" => e3::inter(&mut rec, &mut rng, thorough),
+                "plan" => e3::plan(&mut rec, &mut rng, thorough),
+                "linear" => e3::linear(&mut rec, &mut rng, thorough),
                 "wire" => e2::wire(&mut rec, &mut rng, thorough),
                 "otinew" => e2::oti_new(&mut rec, &mut rng, thorough),
                 "partition" => e2::partition(&mut rec, &mut rng, thorough),
